@@ -4,7 +4,7 @@
 set -u
 cd /repo
 git diff --quiet || { echo "/repo working tree not clean"; exit 2; }
-trap 'git -C /repo checkout -q -- .' EXIT
+trap 'git -C /repo checkout -q -- . ; git -C /repo clean -fdq' EXIT
 bad=0
 for d in /verif/refactors/*.diff; do
   git apply "$d" || { echo "$(basename $d): does not apply"; bad=1; continue; }
@@ -12,7 +12,7 @@ for d in /verif/refactors/*.diff; do
   for i in 01 02 03 04 05 06 07 08 09 10 11 12 13 14 15 16 17 18; do
     /verif/bin/uhlint check C$i 2>/dev/null | grep -q '^VIOLATION' && alarms="$alarms C$i"
   done
-  git checkout -q -- .
+  git checkout -q -- . && git clean -fdq
   echo "$(basename $d): alarms:${alarms:- none}"
   [ -n "$alarms" ] && bad=1
 done
